@@ -109,6 +109,20 @@ fn run_case(hash_mb: usize, priors: &[SearchSpec], main: &SearchSpec, st: &mut S
             return Err(Fail::new("reset_not_fresh", format!("after {} earlier searches and reset(), the search of {} moves {:?} differs from a fresh state: {}", priors.len(), main.fen, main.moves, first_difference(&tc, &fresh1))).explicit(ex()));
         }
     }
+    if !priors.is_empty() {
+        // the Hash option changed between the games (setoption resizes the table, ucinewgame resets):
+        // still a fresh engine of the new size
+        let other = if hash_mb >= 16 { hash_mb - 1 } else { hash_mb + 1 + priors.len() % 2 };
+        let mut d = PersistentState::new(other);
+        run_priors(&mut d).map_err(|f| f.explicit(ex()))?;
+        d.tt.resize(hash_mb);
+        d.reset();
+        let td = trace(&mut d, main).map_err(|f| f.explicit(ex()))?.unwrap();
+        st.class("hash_resized_before_the_new_game");
+        if td != fresh1 {
+            return Err(Fail::new("reset_not_fresh:after_resize", format!("after {} earlier searches with Hash {other}, a resize to {hash_mb} MB and reset(), the search of {} moves {:?} differs from a fresh state: {}", priors.len(), main.fen, main.moves, first_difference(&td, &fresh1))).explicit(ex()));
+        }
+    }
     if deep {
         st.nontrivial(&format!("{hash_mb} {priors:?} {main:?}"));
         if st.want_nontrivial_sample() {
